@@ -113,7 +113,12 @@ func coqObs(res *runResult) (tracks string, obs string) {
 	return coqfmt.List(ts), coqfmt.List(os_)
 }
 
-// the fMP4 stream as the Client downloaded it
+// the fMP4 stream as the Client downloaded it. Model/ClientTime.v has no fMP4 counterpart of the
+// MPEG-TS PMT level (supportedTracks / readerView): st_init is p.init.Tracks after run() has
+// filtered the codecs, so the model is given the supported tracks only, as the client sees them.
+// The fragments are given whole: a traf of a track the client does not process (declared with
+// an unsupported codec, or not declared at all) carries an ID that st_init does not have, which
+// the model's processPartTrack skips ("if !ok { continue }").
 func coqStream(st *StreamDesc, segIdx []int) string {
 	var init []string
 	for _, t := range st.Tracks {
@@ -130,7 +135,8 @@ func coqStream(st *StreamDesc, segIdx []int) string {
 				for _, sm := range pt.Samples {
 					ss = append(ss, fmt.Sprintf("Build_sample %s %s %d 0", zlit(sm.Dur), zlit(sm.Off), sm.ID))
 				}
-				pts = append(pts, fmt.Sprintf("Build_partTrack %d %s %s 0%%nat", st.Tracks[pt.Track].ID, zlit(pt.Base), coqfmt.List(ss)))
+				id, _, _, _ := st.trafTrack(pt)
+				pts = append(pts, fmt.Sprintf("Build_partTrack %d %s %s 0%%nat", id, zlit(pt.Base), coqfmt.List(ss)))
 			}
 			parts = append(parts, coqfmt.List(pts))
 		}
